@@ -361,6 +361,149 @@ example : newDna.gap ∉ ['A', 'T', 'G', 'T', 'A', 'A'] := by decide
    hypothesis: the hand model `trimStopCodon` has no counterpart of the regular-expression branch (it is executed
    against the real functions on gapped DNA / RNA sequences every run instead). -/
 
+
+/-! ## `core/sequence.py` old `Sequence.get_translation` (loops, try / except, `continue`, the RNA recursion) -/
+
+/-- the lifted body of the inner loop (`for codon in resolved`) does not depend on the outer loop's variables it is given -/
+theorem for1_params (self : NSeq) (gc : OldGC) (io is_ ts : Bool) (p : PM) (ca : List (List Char)) (m : NSeq)
+    (tr : List (List Char)) (sq : List Char) (posn : Int) (oc : List Char) (res : List (List Char)) :
+    old_seq_get_translation_for1 self gc io is_ ts p ca m tr sq posn oc res =
+      old_seq_get_translation_for1 self gc io is_ false p ca m [] [] 0 [] [] := by
+  funext trans codon
+  rfl
+
+example : old_seq_get_translation_for1 (oldSeqOf oldDna []) (mkOldGC (NCBI.tableOf []) []) false false true (protMoltype []) [] (oldSeqOf oldDna [])
+    [] [] 0 [] [] [['K']] ['-', '-', '-'] = .ok [['K'], ['-']] := by decide
+
+/-- the lifted body of the outer loop (`for posn in range(0, len(seq) - 2, 3)`) looks at the text only through the codon
+`seq[posn : posn + 3]` and only APPENDS to `translation`: it is itself run on the codon alone, appended to the state -/
+theorem for2_acc (self : NSeq) (gc : OldGC) (io is_ ts : Bool) (p : PM) (ca : List (List Char)) (m : NSeq)
+    (sq : List Char) (tr : List (List Char)) (posn : Int) (cod : List Char)
+    (hc : pySlice sq (some posn) (some (posn + 3)) = cod) (h3 : cod.length = 3) :
+    old_seq_get_translation_for2 self gc io is_ ts p ca m sq tr posn =
+      (old_seq_get_translation_for2 self gc io is_ false p ca m cod [] 0).map (fun t => tr ++ t) := by
+  have h0 : pySlice cod (some (0 : Int)) (some ((0 : Int) + 3)) = cod := by
+    have := pySlice_nn cod 0 3
+    simp only [Int.natCast_zero] at this
+    rw [show ((0 : Int) + 3) = ((3 : Nat) : Int) from rfl, this]
+    simp [List.take_of_length_le (Nat.le_of_eq h3)]
+  unfold old_seq_get_translation_for2
+  simp only [hc, h0, for1_params self gc io is_ ts p ca m tr sq posn, for1_params self gc io is_ false p ca m [] cod 0]
+  cases pyTry (NSeq.resolveAmbiguity m cod ca) PyErr.alphabetError
+      (if (¬ (io = true)) ∨ (¬ ('-' ∈ cod)) then .error PyErr.alphabetError else .ok [cod]) with
+  | error e => rfl
+  | ok resolved =>
+    simp only [Except.bind]
+    cases resolved.foldlM (old_seq_get_translation_for1 self gc io is_ false p ca m [] [] 0 [] []) [] with
+    | error e => rfl
+    | ok trans =>
+      simp only []
+      split <;> simp [Except.map]
+
+example : pySlice ['A', 'A', 'T', 'G', 'C'] (some (1 : Int)) (some ((1 : Int) + 3)) = ['A', 'T', 'G'] := by decide
+
+/-- the protein moltype old `get_translation` asks for -/
+def protOf (is_ : Bool) : PM :=
+  protMoltype (if (is_ = true) then ['p', 'r', 'o', 't', 'e', 'i', 'n', '_', 'w', 'i', 't', 'h', '_', 's', 't', 'o', 'p'] else ['p', 'r', 'o', 't', 'e', 'i', 'n'])
+
+/-- what the TRANSLATED loop body does with ONE codon (`resolve_ambiguity` with the code's codon alphabet, the inner loop
+over the resolved codons, `what_ambiguity` of the protein moltype): the body itself, run on the codon alone -/
+def oldCodonStep (q : NSeq) (g : OldGC) (io is_ : Bool) (cod : List Char) : Except PyErr (List (List Char)) :=
+  old_seq_get_translation_for2 q g io is_ false (protOf is_) (OldGC.codonAlphabet g is_) q cod [] 0
+
+def oldCodonFold (q : NSeq) (g : OldGC) (io is_ : Bool) (acc : List (List Char)) (cod : List Char) : Except PyErr (List (List Char)) :=
+  (oldCodonStep q g io is_ cod).map fun t => acc ++ t
+
+/-- the outer loop of the translated old `get_translation` visits exactly the successive complete codons of the text
+(induction over the number of `range` steps), threading the accumulated translation — for EVERY text (gapped, ambiguous,
+any length) and every option -/
+theorem old_tr_loop (q : NSeq) (g : OldGC) (io is_ ts : Bool) (str : List Char) : ∀ (n k : Nat) (acc : List (List Char)),
+    3 * n ≤ str.length - k → str.length - k < 3 * n + 3 → k ≤ str.length →
+    (pyRangeAux n (k : Int) 3).foldlM
+        (old_seq_get_translation_for2 q g io is_ ts (protOf is_) (OldGC.codonAlphabet g is_) q str) acc =
+      (chunks3 (str.drop k)).foldlM (oldCodonFold q g io is_) acc := by
+  intro n
+  induction n with
+  | zero =>
+    intro k acc _ h2 _
+    rw [chunks3_short _ (by simp; omega)]
+    rfl
+  | succ n ih =>
+    intro k acc h1 h2 h3
+    obtain ⟨a, b, c, hd⟩ := drop_cons3 str k (by omega)
+    have hs : pySlice str (some (k : Int)) (some ((k : Int) + 3)) = [a, b, c] := by
+      rw [show ((k : Int) + 3) = ((k + 3 : Nat) : Int) by omega, pySlice_nn, List.drop_take, hd]
+      simp
+    have ih' := fun acc => ih (k + 3) acc (by omega) (by omega) (by omega)
+    rw [show (((k + 3 : Nat) : Int)) = (k : Int) + 3 by omega] at ih'
+    have hd' : str.drop (k + 3) = (str.drop k).drop 3 := by rw [List.drop_drop]
+    simp only [pyRangeAux, List.foldlM_cons, hd, chunks3, for2_acc q g io is_ ts _ _ q str acc k [a, b, c] hs rfl]
+    simp only [oldCodonFold, oldCodonStep]
+    cases (old_seq_get_translation_for2 q g io is_ false (protOf is_) (OldGC.codonAlphabet g is_) q [a, b, c] [] 0) with
+    | error e => rfl
+    | ok t =>
+      simp only [Except.map, bind, Except.bind]
+      rw [ih', hd', hd]
+
+example : chunks3 ['A', 'T', 'G', '-', '-', 'A', 'C'] = [['A', 'T', 'G'], ['-', '-', 'A']] := by decide
+
+/-- NORMAL FORM of the translated old `Sequence.get_translation`, for EVERY sequence (gapped, ambiguous, RNA, any length),
+every genetic-code object and all eight option combinations: an RNA sequence is converted with `to_dna()` and translated
+again (the recursion; `fuel` = remaining depth); otherwise the text is the sequence itself when `include_stop or not
+trim_stop` (this is where `include_stop` overrides `trim_stop`: known finding) and `trim_stop_codon(gc, strict=not
+incomplete_ok)` else; its successive complete codons go through the codon step one by one, left to right, the first
+failure aborts, and the amino acids are joined. -/
+theorem gen_old_seq_get_translation_structure (q : NSeq) (g : OldGC) (io is_ ts : Bool) (fuel : Nat) :
+    old_seq_get_translation_fuel (fuel + 1) q g io is_ ts =
+      if NSeq.label q = ['r', 'n', 'a'] then old_seq_get_translation_fuel fuel (NSeq.toDna q) g io is_ ts
+      else
+        Except.bind (if is_ = true ∨ ¬ ts = true then .ok q.chars
+                     else (old_seq_trim_stop_codon q g (decide (¬ io = true))).map NSeq.str) fun str =>
+        Except.bind ((chunks3 str).foldlM (oldCodonFold q g io is_) []) fun tr => .ok (pyJoin [] tr) := by
+  conv => lhs; unfold old_seq_get_translation_fuel
+  simp only []
+  split
+  · rfl
+  · simp only [pyRange_codons]
+    have hl := fun str => old_tr_loop q g io is_ ts str (str.length / 3) 0 [] (by omega) (by omega) (by omega)
+    simp only [List.drop_zero] at hl
+    split
+    · simp only [NSeq.str, Except.bind]
+      rw [← hl q.chars]
+      rfl
+    · cases old_seq_trim_stop_codon q g (decide (¬ io = true)) with
+      | error e => rfl
+      | ok t =>
+        simp only [NSeq.str, Except.bind, Except.map]
+        rw [← hl t.chars]
+        rfl
+
+example : old_seq_get_translation (oldSeqOf oldDna ['A', 'T', 'G', 'R', 'A', 'T', 'T', 'A', 'A']) (mkOldGC (NCBI.tableOf []) []) false false true
+    = .ok ['M', 'B'] := by decide +kernel
+
+/-- `to_dna()` leaves a DNA sequence: the RNA recursion of old `get_translation` is exactly one level deep, so the
+two-level fuel of the translation never runs out. -/
+theorem old_get_translation_recursion_depth (q : NSeq) (g : OldGC) (io is_ ts : Bool) :
+    NSeq.label (NSeq.toDna q) ≠ ['r', 'n', 'a'] ∧
+    (NSeq.label q = ['r', 'n', 'a'] →
+      old_seq_get_translation q g io is_ ts = old_seq_get_translation_fuel 1 (NSeq.toDna q) g io is_ ts) := by
+  constructor
+  · have hU : 'U' ∉ (NSeq.toDna q).mtChars := by
+      simp only [NSeq.toDna, List.mem_map, not_exists, not_and]
+      intro c _
+      split
+      · decide
+      · split
+        · decide
+        · rename_i h _; exact h
+    simp [NSeq.label, hU]
+  · intro h
+    unfold old_seq_get_translation
+    rw [gen_old_seq_get_translation_structure, if_pos h]
+
+example : old_seq_get_translation (oldSeqOf oldRna ['A', 'U', 'G', 'U', 'A', 'A']) (mkOldGC (NCBI.tableOf []) []) false false true
+    = .ok ['M'] := by decide +kernel
+
 /-! ## composition: translated source → hand model → specification -/
 
 /-- The TRANSLATED new `translate` is the table mapped over the successive codons, for every NCBI code, every canonical
